@@ -60,6 +60,8 @@ pub struct GenOpts {
     pub builddir_pct: usize,
     pub defaults_pct: usize,
     pub rsp: bool,
+    /// chance (percent) that a command step uses a response file
+    pub rsp_pct: usize,
     pub alt_manifest_pct: usize,
     /// among self-regenerating projects: share with a separately generated included file
     pub subgen_pct: usize,
@@ -80,6 +82,7 @@ impl Default for GenOpts {
             builddir_pct: 0,
             defaults_pct: 0,
             rsp: true,
+            rsp_pct: 15,
             alt_manifest_pct: 0,
             subgen_pct: 0,
         }
@@ -148,7 +151,7 @@ impl Proj {
                 None
             };
             let deps = if !phony && o.deps && t.chance(40) { [1u8, 2, 1, 2, 3][t.below(5)] } else { 0 };
-            let rsp = if !phony && o.rsp && t.chance(15) { Some(0) } else { None };
+            let rsp = if !phony && o.rsp && t.chance(o.rsp_pct) { Some(0) } else { None };
             if phony {
                 phony_outs.extend(outs.iter().cloned());
             }
@@ -482,8 +485,8 @@ impl Proj {
 /// First word of a response file of content version v: its length goes up and down with v, so that a rewritten
 /// response file is sometimes shorter than the one it replaces.
 pub fn rsp_word(v: u32) -> String {
-    // consecutive versions are alternately of equal and of different length
-    format!("rsp{}{}", v, "x".repeat((((v / 2) as usize) * 5 + 9) % 12))
+    // consecutive versions: shorter, equal length, longer, equal length, shorter, ...
+    format!("rsp{}{}", v, "x".repeat(((((v + 1) / 2) as usize) * 5 + 9) % 12))
 }
 
 pub fn esc(p: &str) -> String {
